@@ -73,7 +73,7 @@ HARNESS(h_ringbuffer)
     Model m; m.n = 0;
     CHECK(rb->max_size() == CAP, "max_size()");
     for (unsigned step = 0; step < H; ++step) {
-        unsigned op = nondet_below(18);
+        unsigned op = nondet_below(20);
         uint8_t x = nondet_u8();
         OBS(op);
         switch (op) {
@@ -94,6 +94,11 @@ HARNESS(h_ringbuffer)
         case 14: { RB& self = *rb; *rb = self; } break;   // self-assignment
         case 15: { RB tmp(std::move(*rb)); *rb = tmp; compare(*rb, m, (int)m.n); CHECK(rb->max_size() == tmp.max_size(), "copy-assignment into a moved-from buffer"); } break;
         case 16: { RB tmp(std::move(*rb)); *rb = std::move(tmp); } break;   // move-assignment into a moved-from buffer
+        case 17: { RB src(*rb); rb->deallocate(); CHECK(g_live == src.size(), "deallocate destroys every element of this buffer");      // copy-assignment into a deallocated buffer (equal capacities)
+                   *rb = src; compare(*rb, m, (int)m.n); CHECK(rb->max_size() == src.max_size(), "copy-assignment into a deallocated buffer"); } break;
+        case 18: { RB* c = new RB(std::move(*rb)); compare(*c, m, 0);      // a moved-from buffer is empty and self-consistent: if it reports room, pushing works
+                   if (rb->size() < rb->max_size()) { rb->emplace_back(x); CHECK(rb->size() == 1 && rb->back().ok(x), "moved-from buffer that reports free capacity accepts an element"); }
+                   delete rb; rb = c; } break;
         default: { rb->deallocate(); m.n = 0; rb->allocate(CAP2); CHECK(rb->max_size() == CAP2, "allocate sets max_size");     // re-allocate with a different size, use it, then restore
                    if (CAP2 > 0) { rb->emplace_back(x); CHECK(rb->size() == 1 && rb->front().ok(x), "buffer usable after deallocate + allocate"); rb->pop_front(); }
                    rb->deallocate(); rb->allocate(CAP); } break;
